@@ -139,6 +139,10 @@ pub struct ErrCase {
     pub constructor: u8,
     pub message: String,
     pub prepared: Option<Prepared>,
+    /// the prepared response is removed (or the request was built with
+    /// `CoapRequest::new()`), although the message is CON/NON
+    #[serde(default)]
+    pub response_removed: u8,
 }
 
 #[derive(Clone, Debug, Serialize, Deserialize, Hash)]
@@ -161,6 +165,21 @@ fn status_of(i: u8) -> ResponseType {
 pub fn check_err(_ctx: &Ctx, c: &ErrCase, acc: &mut Acc) -> Result<(), Fail> {
     let m = c.request.msg();
     let mut req = CoapRequest::from_packet(from_msg(&m), 7u32);
+    match c.response_removed {
+        1 => {
+            req.response = None;
+        }
+        2 => {
+            let mut fresh: CoapRequest<u32> = CoapRequest::new();
+            fresh.message = from_msg(&m);
+            fresh.source = Some(7);
+            req = fresh;
+        }
+        _ => {}
+    }
+    if c.response_removed > 0 {
+        acc.class("response-removed");
+    }
     if let (Some(resp), Some(pre)) = (req.response.as_mut(), c.prepared.as_ref()) {
         for (n, b) in &pre.options {
             resp.message.add_option(CoapOption::from(*n), b.bytes());
@@ -316,6 +335,7 @@ pub fn run(ctx: &Ctx, rep: &mut Report) {
                 )),
             )
                 .prop_map(|(request, code, constructor, message, pre)| ErrCase {
+                    response_removed: if constructor % 5 == 0 { 1 + (constructor / 5) % 2 } else { 0 },
                     request,
                     code,
                     constructor,
